@@ -143,3 +143,12 @@ Theorem C23_cr_restore_then_continue :
   option_map (fun s => run step s b2) (restore cr_key_frame wire) = Some (run step s0 (b1 ++ b2)).
 Proof. exact (@restore_then_continue _ cr_key_frame cr_key_frame_ok). Qed.
 Print Assumptions C23_cr_restore_then_continue.
+
+(* Non-vacuity: a concrete key frame with a pending producer (nested vote
+   maps), withdrawable entries and non-zero scalars satisfies [wf]; its
+   canonical encoding has more than 300 bytes and decodes to it. *)
+Example C23_nonvacuous :
+  wf dpos_state_key_frame ex_skf /\
+  dec dpos_state_key_frame (enc dpos_state_key_frame ex_skf) = Some (ex_skf, []) /\
+  (300 <? N.of_nat (List.length (enc dpos_state_key_frame ex_skf))) = true.
+Proof. exact (conj ex_skf_wf ex_skf_roundtrip). Qed.
